@@ -529,6 +529,29 @@ def rule_M(run, prog, m):
                                "prepared for the refused call (its resolution, an initialised empty storage), and additions that "
                                "were admissible before are refused afterwards" % (a, len(hits)), loc=wrap.loc(tr),
                        sample={"assigned_before_refusals": sorted(early), "restored": sorted(restored)})
+    # 'as it was' includes 'not there': a value saved with getattr(self, name, default) belongs to an attribute that may be
+    # absent; writing the default back creates it (an empty response whose storage is None instead of missing answers the
+    # next request with a TypeError instead of doing what an empty response does)
+    for a_ in walk_no_nested(wrap.node):
+        if not (isinstance(a_, ast.Assign) and a_.lineno < tr.lineno and isinstance(a_.value, ast.Call)
+                and norm(a_.value.func) == "getattr" and len(a_.value.args) == 3 and norm(a_.value.args[0]) == "self"
+                and isinstance(a_.value.args[1], ast.Constant)):
+            continue
+        attr = a_.value.args[1].value
+        put_back = [x for h in tr.handlers for x in ast.walk(h) if isinstance(x, ast.Assign)
+                    and any(isinstance(t_, ast.Attribute) and norm(t_.value) == "self" and t_.attr == attr for t_ in x.targets)]
+        if not put_back:
+            continue
+        removes = any((isinstance(x, ast.Delete) and any(isinstance(t_, ast.Attribute) and t_.attr == attr for t_ in x.targets))
+                      or (isinstance(x, ast.Call) and norm(x.func) == "delattr" and len(x.args) == 2
+                          and isinstance(x.args[1], ast.Constant) and x.args[1].value == attr)
+                      for h in tr.handlers for x in ast.walk(h))
+        run.obligation(rid, wrap.short, removes, key="absence-restored:" + attr,
+                       message="_add_data saves self.%s with getattr(..., %s) - the attribute may not exist yet - and puts the saved "
+                               "value back when the addition is refused: where there was no attribute there is now one holding %s; "
+                               "a response that refused its first addition is no longer an empty response (set_resolution and "
+                               "the views fail on it)" % (attr, norm(a_.value.args[2]), norm(a_.value.args[2])),
+                       loc=wrap.loc(put_back[0]), sample={"attribute": attr})
 
 
 def rule_J(run, prog, m):
